@@ -52,6 +52,17 @@ Example C10_nonvacuous :
   d_fired (fst (run_data (data_new DBool) [] h)) == (1#64) + (1#8).
 Proof. split; [repeat apply Forall_cons; try apply Forall_nil; simpl; lra | split; vm_compute; reflexivity]. Qed.
 
+(* ---- the executable judgement of the correspondence check is sound for the model, and transfers: whenever the
+   implementation's output agrees with the model's on a case, the judgement accepts it (for EVERY case, not only the
+   ones that were run).  Statements about coq/Check; proofs in coq/Proofs/Judge*.v ---- *)
+From BEI Require Check.Datac Proofs.JudgeDataP.
+Theorem C10_judgement_sound : forall a steps, JudgeDataP.steps_wf10 a steps -> Datac.ok_C10 (Datac.udata a steps, Datac.model (Datac.udata a steps)) = 0%Z.
+Proof. exact JudgeDataP.C10_judgement_sound. Qed.
+
+Theorem C10_judgement_transfer : forall a steps o, JudgeDataP.steps_wf10 a steps -> Datac.agree (Datac.udata a steps, o) = true -> Datac.ok_C10 (Datac.udata a steps, o) = 0%Z.
+Proof. exact JudgeDataP.C10_judgement_transfer. Qed.
+
+
 Print Assumptions C10_recurrences.
 Print Assumptions C10_closed_form.
 Print Assumptions C10_bounds.
@@ -71,3 +82,5 @@ Theorem C10_world_durations : forall sc c e a steps w dm,
     (Forall (fun dt => 0 <= dt)%Q (frame_deltas steps) -> 0 <= d_fired d' /\ d_fired d' <= d_elapsed d')%Q.
 Proof. exact held_run_durations. Qed.
 Print Assumptions C10_world_durations.
+Print Assumptions C10_judgement_sound.
+Print Assumptions C10_judgement_transfer.
